@@ -136,6 +136,10 @@ class STerm(SymVal):
         raise Outside(op)
     def sym_binop(self, it, op, other, reflected):
         Operator, _, _ = _lang()
+        if op == 'RShift' and reflected and self.kind == 'quant':
+            from pytableaux.lang import Constant
+            if isinstance(other, Constant):        # a concrete constant (e.g. Constant.first()) >> quantified
+                return self.unquantify(Param('const', f'k{other.index}_{other.subscript}'))
         if not isinstance(other, STerm): return NotImplemented
         a, b = (other, self) if reflected else (self, other)
         if op == 'BitOr': return STerm.Op(Operator.Disjunction, a, b)
@@ -444,6 +448,12 @@ def make_world():
     w.builtin_models[deque] = lambda it, xs=(): GenList(it.iterate(xs))
     # Operator / Quantifier members are callables building sentences (C15 contracts: free constructors)
     def hook(it, what, args):
+        if what == ('binop', 'RShift'):
+            from pytableaux.lang import Constant
+            a, b = args
+            if isinstance(a, Constant) and isinstance(b, STerm) and b.kind == 'quant':
+                return b.unquantify(Param('const', f'{a.index}_{a.subscript}'))
+            return NotImplemented
         if what[0] == 'getattr':
             (obj,) = args
             if isinstance(obj, (Operator, Quantifier)):
